@@ -702,7 +702,8 @@ def fieldsOf (wb : Workbook) : Except Err Asm.Fields :=
     | .error (.err _) => .error (.rejected "settings")
     | .ok _ =>
       let sv := Settings.surveyOf (Settings.jsonRoot st {})
-      .ok { name := sv.name, title := sv.title, idString := sv.idString, version := sv.version }
+      -- the fragment has no `instance::` / `attribute::` settings columns: no extra attributes on the instance root
+      .ok { name := sv.name, title := sv.title, idString := sv.idString, version := sv.version, instAttrs := [], attrib := [] }
 
 /-- or_other selects append the choice `other` to their (shared) list (xls2json.py 1036-1078) -/
 def othersApplied : List Cells → List (Str × List Choices.Choice) → List (Str × List Choices.Choice)
